@@ -71,6 +71,9 @@ def main():
         d = SEEDED / n
         meta = json.loads((d / 'meta.json').read_text())
         demo = next(d.glob('demo.*'))
+        if meta.get('obsolete') and a.cmd == 'run':
+            print(n, 'OBSOLETE (skipped):', meta['obsolete'][:80])
+            continue
         if a.cmd == 'confirm':
             clean = worktree()
             try:
